@@ -95,9 +95,10 @@ def call_true_false_edges(body, cs):
     return tr, fl
 
 
-def unreachable_without(body, targets, removed_nodes=(), removed_edges=(), start=0):
-    """True when none of `targets` is reachable from start once the nodes/edges are removed (must-pass-through)."""
-    r = body.reachable(start, removed_nodes, removed_edges)
+def unreachable_without(body, targets, removed_nodes=(), removed_edges=(), start=0, flags=False):
+    """True when none of `targets` is reachable from start once the nodes/edges are removed (must-pass-through).
+    flags=True uses the flag/variant-tag sensitive reachability (fewer infeasible paths, same soundness)."""
+    r = body.reachable_flags(start, removed_nodes, removed_edges) if flags else body.reachable(start, removed_nodes, removed_edges)
     return not (set(targets) & r), sorted(set(targets) & r)
 
 
@@ -166,6 +167,9 @@ def result_return_kinds(body):
                     err_blocks.append(i)
                 elif v == "Ready":
                     fwd.append(i)
+            elif st["s"] == "assign" and st["lhs"]["l"] == 0 and not st["lhs"]["p"] and st["rv"]["k"] == "use" and op_place(st["rv"]["op"]) is not None:
+                # `_0 = move x`: a result computed elsewhere (e.g. by an inlined helper) is forwarded
+                fwd.append(i)
         t = b["term"]
         if t["t"] == "call" and t.get("dest") and t["dest"]["l"] == 0 and not t["dest"]["p"]:
             cs = CallSite(body, i, t)
